@@ -86,7 +86,7 @@ def linecol(text, off):
 def check(run, replay):
     quick = run.tier == "quick"
     rng = run.rng
-    run.level = "partial"
+    run.level = "proof"   # technique; the claim is partial, see registry level_text
     run.trusted_base += [
         "Coq 8.16.1 kernel (coqc); no axioms",
         "extraction: Require Extraction + ExtrOcamlBasic only",
